@@ -98,6 +98,8 @@ func checkC04(c *Ctx) {
 	// "the answer to a request does not depend on any earlier request" (stateless) and "served in that session"
 	// (stateful): the session a request is dispatched on is looked up or created for it, never a shared member
 	dispatchOwnContext(c, "R-own-session")
+	// "a request bearing an id that was never issued, or was deleted, is refused": the found-flag of the session lookup decides, not the value
+	lookupOKConsulted(c, serverPathFns(c), "R-ok-consulted")
 	c04HeaderBeforeStream(c)
 	c04SwitchStaysOff(c)
 	// "DELETE ends the session together with its open stream": the stream table rules of C11 (among them: the stream's
